@@ -3,7 +3,6 @@ package main
 // Symbolic execution of the Go subset over the typed AST, with state merging.
 
 import (
-	"strconv"
 	"bytes"
 	"fmt"
 	"go/ast"
@@ -12,6 +11,7 @@ import (
 	"go/types"
 	"io"
 	"sort"
+	"strconv"
 	"strings"
 )
 
@@ -1533,7 +1533,7 @@ func (c *FnCtx) ghostAssign(st *State, cl *Clause, iter *State) {
 	c.openBound = c.openBound[:len(c.openBound)-1]
 	nw := c.newHeapVersion(key)
 	c.declared[nw] = true
-		c.isMacro[nw] = true
+	c.isMacro[nw] = true
 	c.emit(fmt.Sprintf("(define-fun %s ((%s Int)) Int %s)", nw, bv, body))
 	st.heaps[key] = nw
 }
